@@ -289,6 +289,9 @@ impl<'a, 'ast> Visit<'ast> for Scan<'a> {
         if let syn::Stmt::Local(l) = s {
             pat_idents(&l.pat, &mut lets);
         }
+        if let syn::Stmt::Item(syn::Item::Const(c)) = s {
+            lets.push(c.ident.to_string()); // R13 turns a function-local const into a let
+        }
         self.stmts.push(StmtInfo { range: self.src.range(s.span()), lets });
         syn::visit::visit_stmt(self, s);
     }
@@ -518,20 +521,6 @@ impl<'a, 'e, 'ast> Visit<'ast> for Rewriter<'a, 'e> {
         }
         syn::visit::visit_expr_for_loop(self, f);
     }
-    fn visit_expr_cast(&mut self, c: &'ast syn::ExprCast) {
-        // R4: (&mut A as &mut [u8]) -> shim_as_mut_slice(&mut A)
-        if let (syn::Expr::Reference(r), syn::Type::Reference(t)) = (&*c.expr, &*c.ty) {
-            if r.mutability.is_some() && t.mutability.is_some() {
-                if let syn::Type::Slice(_) = &*t.elem {
-                    let (a, b) = self.src.range(c.span());
-                    let pieces = vec![Self::lit("shim_as_mut_slice("), self.sub(c.expr.span()), Self::lit(")")];
-                    self.ed.replace(a, b, pieces, "R4");
-                    self.fire("R4");
-                }
-            }
-        }
-        syn::visit::visit_expr_cast(self, c);
-    }
     fn visit_expr_index(&mut self, i: &'ast syn::ExprIndex) {
         // R6 (abort allowed): MAP[&K] -> *shim_map_index(&MAP, &K)   (only for `x[&k]` shapes)
         if self.abort_allowed {
@@ -548,6 +537,30 @@ impl<'a, 'e, 'ast> Visit<'ast> for Rewriter<'a, 'e> {
         let e = syn::Expr::MethodCall(m.clone());
         let (a, b) = self.src.range(m.span());
         let name = m.method.to_string();
+        // R4: (&mut A as &mut [u8]).write_uNN::<LittleEndian>(X)  ->  shim_write_uNN_into(&mut A, X)
+        let mut recv: &syn::Expr = &m.receiver;
+        while let syn::Expr::Paren(p) = recv {
+            recv = &p.expr;
+        }
+        let mut r4 = false;
+        if name.starts_with("write_u") && m.args.len() == 1 {
+            if let syn::Expr::Cast(c) = recv {
+                if let (syn::Expr::Reference(r), syn::Type::Reference(t)) = (&*c.expr, &*c.ty) {
+                    if r.mutability.is_some() && t.mutability.is_some() && matches!(&*t.elem, syn::Type::Slice(_)) {
+                        let pieces = vec![Self::lit(&format!("shim_{}_into(", name)), self.sub(c.expr.span()), Self::lit(", "), self.sub(m.args[0].span()), Self::lit(")")];
+                        self.ed.replace(a, b, pieces, "R4");
+                        self.fire("R4");
+                        r4 = true;
+                    }
+                }
+            }
+        }
+        if r4 {
+            for arg in &m.args {
+                self.visit_expr(arg);
+            }
+            return;
+        }
         // R1: X.chunks(N)
         if name == "chunks" && m.args.len() == 1 {
             let pieces = vec![Self::lit("shim_chunks("), self.sub(m.receiver.span()), Self::lit(", "), self.sub(m.args[0].span()), Self::lit(")")];
